@@ -11,6 +11,7 @@ here (`PathAbort`, `Unsupported`) derive from BaseException.
 """
 from __future__ import annotations
 
+import sys
 import time as _time
 
 import z3
@@ -121,6 +122,34 @@ def count(bs):
     return s + k if k else s
 
 
+_SX_DIR = __file__.rsplit("/", 1)[0]
+
+
+def _site():
+    """Fingerprint of a decision = call site (first frame outside the runtime/model package).
+    Term hashes are not usable: z3.simplify orders commutative arguments by AST id, which depends
+    on the history of the (forked) process."""
+    f = sys._getframe(2)
+    while f is not None and f.f_code.co_filename.startswith(_SX_DIR):
+        f = f.f_back
+    if f is None:
+        return 0
+    return hash_str(f.f_code.co_filename) ^ (f.f_lineno * 2654435761 & 0xFFFFFFFF)
+
+
+_HS = {}
+
+
+def hash_str(s):
+    h = _HS.get(s)
+    if h is None:
+        h = 0
+        for ch in s:
+            h = (h * 131 + ord(ch)) & 0xFFFFFFFF
+        _HS[s] = h
+    return h
+
+
 class Ctx:
     """One execution path."""
 
@@ -196,9 +225,7 @@ class Ctx:
             return True
         if z3.is_false(cond):
             return False
-        # fingerprint of the term as constructed (z3.simplify orders commutative
-        # arguments by AST id, which depends on the process history)
-        fp = cond.hash()
+        fp = _site()
         cond = z3.simplify(cond)
         if z3.is_true(cond):
             return True
@@ -230,7 +257,7 @@ class Ctx:
         """z3 Int term -> python int; forks over the feasible values (finite domains only)"""
         if isinstance(expr, int):
             return expr
-        fp = expr.hash()
+        fp = _site()
         expr = z3.simplify(expr)
         if z3.is_int_value(expr):
             return expr.as_long()
